@@ -28,6 +28,18 @@
 #define OBJ(T, name) struct { struct Header h; struct T v; } name
 #define MK(name, T, alloc) ((struct T*)header_init(&(name).h, (T), (alloc)))
 
+/* configuration-robust header facts: CELLO_NDEBUG drops the allocation class and the magic number from the header */
+#if CELLO_ALLOC_CHECK == 1
+#define ALLOC_IS(p, cls) (HDR(p)->alloc == (var)(intptr_t)(cls))
+#else
+#define ALLOC_IS(p, cls) 1
+#endif
+#if CELLO_MAGIC_CHECK == 1
+#define MAGIC_OK(p) (HDR(p)->magic == (var)CELLO_MAGIC_NUM)
+#else
+#define MAGIC_OK(p) 1
+#endif
+
 #define SIGN(x) (((x) > 0) - ((x) < 0))
 
 int nondet_int(void);
